@@ -411,7 +411,7 @@ def main():
     driver_ok = os.path.exists(os.path.join(LEAN, ".lake", "build", "bin", "oxdriver")) and built
 
     # ---------------- T and O
-    streams = cfg.get("streams", [])
+    streams = [s for s in cfg.get("streams", []) if tier in s.get("tiers", ["quick", "thorough"])]
     with Lock("cargo"):
         groups = {}
         for s in streams:
@@ -491,6 +491,27 @@ def main():
                 continue
             broken.append({"what": f"correspondence stream {s['name']}", "detail": d, "stream": s, "ops_path": ops_path})
     res["streams"] = stream_res
+
+    # ---------------- streams that must agree with another stream (same operation lines on a
+    # different build configuration): compare the implementation outputs directly
+    for s in (streams if cargo_ok else []):
+        ref = s.get("same_as")
+        if not ref:
+            continue
+        a = os.path.join(work, s["name"], "impl.out")
+        b = os.path.join(work, ref, "impl.out")
+        oa = os.path.join(work, s["name"], "ops.txt")
+        if not (os.path.exists(a) and os.path.exists(b)):
+            continue
+        la, lb, ops = read_lines(a), read_lines(b), read_lines(oa)
+        d = compare(ops, la, lb)
+        for x in d[:5]:
+            x["note"] = f"stream {s['name']} (impl) vs stream {ref} (model column = the other configuration)"
+            broken.append({"what": f"configurations disagree: {s['name']} vs {ref}", "detail": x})
+        for sr in stream_res:
+            if sr["name"] == s["name"]:
+                sr["same_as"] = ref
+                sr["differences_to_reference_configuration"] = len(d)
 
     # ---------------- a broken obligation or correspondence is not by itself a violation: search
     if broken and not violations:
